@@ -49,8 +49,9 @@ class EventDebouncer(BaseThread):
     def run(self) -> None:
         with self._cond:
             while True:
-                # Wait for first event (or shutdown).
-                self._cond.wait()
+                # Wait for first event (or shutdown), unless one arrived before we got here.
+                while not self._events and self.should_keep_running():
+                    self._cond.wait()
 
                 if self.debounce_interval_seconds:
                     # Wait for additional events (or shutdown) until the debounce interval passes.
